@@ -315,6 +315,13 @@ func (r *resolver) ResolveType(t *parser.Type) (err error) {
 // included IDL or -1 if the enum is defined in the given AST.
 // When such an enum is not found, getEnum returns (nil, -1).
 func getEnum(ast *parser.Thrift, name string) (enum *parser.Enum, includeIndex int32) {
+	return getEnumVisited(ast, name, make(map[string]bool))
+}
+
+// getEnumVisited implements getEnum. The visited set holds the typedefs of ast that
+// are being followed, so that a cyclic typedef (which ResolveTypedefs rejects later)
+// ends the search instead of recursing forever.
+func getEnumVisited(ast *parser.Thrift, name string, visited map[string]bool) (enum *parser.Enum, includeIndex int32) {
 	c, exist := ast.Name2Category[name]
 	if !exist {
 		return nil, -1
@@ -327,6 +334,10 @@ func getEnum(ast *parser.Thrift, name string) (enum *parser.Enum, includeIndex i
 		return x, -1
 	}
 	if c == parser.Category_Typedef {
+		if visited[name] {
+			return nil, -1
+		}
+		visited[name] = true
 		if x, ok := ast.GetTypedef(name); !ok {
 			panic(fmt.Errorf("expect %q to be an typedef in %q, not found", name, ast.Filename))
 		} else {
@@ -336,7 +347,7 @@ func getEnum(ast *parser.Thrift, name string) (enum *parser.Enum, includeIndex i
 					return e, r.Index
 				}
 			}
-			return getEnum(ast, x.Type.Name)
+			return getEnumVisited(ast, x.Type.Name, visited)
 		}
 	}
 	return nil, -1
